@@ -978,11 +978,14 @@ impl BoundingBox {
 
     /// Expand (floor/ceil) `BBox` to integer coords surrounding current extent.
     pub fn round(&mut self) -> &Self {
+        // A value which differs from a whole number only beyond the precision of the
+        // output (f32 sums such as -21.8 + 7.8) is that whole number.
+        let snap = |v: f32| ((v as f64 * 1000.).round() / 1000.) as f32;
         *self = Self {
-            x1: self.x1.floor(),
-            y1: self.y1.floor(),
-            x2: self.x2.ceil(),
-            y2: self.y2.ceil(),
+            x1: snap(self.x1).floor(),
+            y1: snap(self.y1).floor(),
+            x2: snap(self.x2).ceil(),
+            y2: snap(self.y2).ceil(),
         };
         self
     }
